@@ -197,6 +197,7 @@ def exec_history(arg) -> dict:
             ev["recipe"] = ri
             hits0 = dict(pool.hit_kinds)
             holder = {}
+            pool_before = {k: state.component_dump(o) for k, o in pool.objs.items()}
 
             def construct():
                 holder["doc"], holder["frames"] = R.build(recs[ri], pool, op["share"], figdir)
@@ -206,6 +207,9 @@ def exec_history(arg) -> dict:
             o.pop("_text", None)
             ev["outcome"] = R.strip(o) if o["k"] != "ok" else {"k": "ok"}
             ev["shared"] = sorted(k for k in pool.hit_kinds if pool.hit_kinds[k] != hits0.get(k, 0))
+            # targeting signal: constructing this document changed a component object the caller already held
+            ev["dirtied"] = sorted({k.split(":", 1)[0] for k, d in pool_before.items()
+                                    if state.component_dump(pool.objs[k]) != d})
             if o["k"] == "ok":
                 docs[op["slot"]] = (holder["doc"], holder["frames"], ri)
                 for df, spec in zip(holder["frames"], recs[ri]["dfs"]):
@@ -597,7 +601,7 @@ def followup_plans(rng, plan: dict, res: dict, limit: int = 3) -> list:
     context* and encode both documents in both orders."""
     dirty = []
     for ev in res["log"]:
-        if ev["op"] == "encode" and ev.get("dirtied"):
+        if ev["op"] in ("encode", "construct") and ev.get("dirtied") and ev.get("recipe") is not None:
             for ctype in ev["dirtied"]:
                 if (ev["recipe"], ctype) not in dirty:
                     dirty.append((ev["recipe"], ctype))
